@@ -14,7 +14,7 @@
    Values are the value_t cells of Model/Amount.v (VOID = not yet set, AMOUNT, BALANCE);
    `add_or_set_value` is v_add (whose VOID row is "set").  The input is the journal as
    xact_t::finalize leaves it: one record per posting, in file order. *)
-From LedgerV Require Import Base.Prelude Base.Round Model.Amount.
+From LedgerV Require Import Base.Prelude Base.Round Model.Amount Gen.ClearXdata.
 Local Open Scope Z_scope.
 
 (* ------------------------------------------------------------------ postings *)
@@ -31,7 +31,13 @@ Record posting : Type := mkPost {
   p_acct    : path;
   p_virtual : bool;           (* (A) or [A] *)
   p_amt     : amount;         (* post.amount; its commodity key carries the lot annotation *)
-  p_cost    : option amount   (* post.cost (total cost), if any *)
+  p_cost    : option amount;  (* post.cost (total cost), if any *)
+  p_date    : Z;              (* the date (of the transaction), as year*10000 + month*100 + day *)
+  p_inferred : bool;          (* ITEM_INFERRED: the posting finalize() adds to a single-posting
+                                 transaction when a default account is set (bucket / A /
+                                 account .. default); account = the bucket, amount = minus the
+                                 balance, state copied from the first posting (xact.cc:211-215) *)
+  p_temp    : bool            (* ITEM_TEMP: never set on a posting of the journal *)
 }.
 
 (* textual.cc:1485-1487: a posting without its own flag takes the transaction's *)
@@ -52,6 +58,8 @@ Record opts : Type := mkOpts {
   o_real  : bool;             (* --real      : limit `real` *)
   o_state : stfilter;         (* --cleared / --uncleared (`uncleared|pending`) / --pending *)
   o_query : query;            (* PATTERN -> account =~ /PATTERN/ ; @PATTERN -> payee =~ /PATTERN/ ; OR-ed *)
+  o_begin : option Z;         (* -b DATE : limit date>=[DATE] *)
+  o_end   : option Z;         (* -e DATE : limit date<[DATE] *)
   o_basis : bool;             (* -B : amount expression rounded(cost) *)
   o_kp : bool; o_kd : bool; o_kt : bool;     (* what_to_keep: lot price / date / tag *)
   o_flat  : bool;
@@ -107,10 +115,15 @@ Definition query_ok (q : query) (p : posting) : bool :=
   end.
 
 (* the limit predicate: the conjunction of everything the options push onto limit_ *)
+Definition date_ok (o : opts) (p : posting) : bool :=
+  match o_begin o with Some b => b <=? p_date p | None => true end &&
+  match o_end o with Some e => p_date p <? e | None => true end.
+
 Definition sel (o : opts) (p : posting) : bool :=
   (negb (o_real o) || negb (p_virtual p)) &&
   state_ok (o_state o) (eff_state p) &&
-  query_ok (o_query o) p.
+  query_ok (o_query o) p &&
+  date_ok o p.
 
 (* amount_t::in_place_round: only clears BIGINT_KEEP_PREC *)
 Definition amt_rounded (a : amount) : amount := mkAmt (aq a) (aprec a) false (acomm a).
@@ -512,9 +525,22 @@ Definition amount_call (ord : bool) (sd : self_details) (posts : list lpost)
   Ok (mkSelf (fst r) (match posts with [] => sd_last sd | _ => Some (length posts - 1)%nat end),
       firstn start posts ++ snd r).
 
+(* xact_base_t::clear_xdata (xact.cc:95-100).  finalize() marks every posting POST_EXT_VISITED
+   while the journal is read; session_t::read_data ends with journal->clear_xdata(), which
+   resets the xdata (POST_EXT_VISITED, POST_EXT_CONSIDERED, the totals) of every posting that
+   does not carry one of the flags its test names.  The flags it names are regenerated from the
+   source (Gen/ClearXdata.v); a posting that survives the wipe is still VISITED when a report
+   starts, whatever the report's filter says. *)
+Definition survives_clear (p : posting) : bool :=
+  negb src_clear_xdata_recognised || src_clear_skips_other ||
+  (src_clear_skips_temp && p_temp p) ||
+  (src_clear_skips_inferred && p_inferred p).
+
+Definition visited_at_report (o : opts) (p : posting) : bool := sel o p || survives_clear p.
+
 (* the postings of account a as the report sees them: all of them, the selected ones visited *)
 Definition acct_lposts (o : opts) (ps : list posting) (a : path) : list lpost :=
-  map (fun p => mkLpost (amt o p) (sel o p) false)
+  map (fun p => mkLpost (amt o p) (visited_at_report o p) false)
       (filter (fun p => path_eqb (p_acct p) a) ps).
 
 (* what `%(amount)` of a balance row returns: total() already called amount() once, the
